@@ -54,6 +54,20 @@ elif kind == "atomic":
                                      positive_eigenvalue_step=0.3)
     neb = NudgedElasticBand(pot, 50.0, 10.0, 12, 1e-2)
     steps, temp, cycles = 12, 1.0, 1
+elif kind == "schwefel":
+    # many minima and saddles: retried pairs and later rounds keep finding NEW transition states, so anything that
+    # disturbs the random streams shows up in the stored coordinates
+    from topsearch.data.coordinates import StandardCoordinates
+    from topsearch.potentials.test_functions import Schwefel
+    from topsearch.similarity.similarity import StandardSimilarity
+    from topsearch.global_optimisation.perturbations import StandardPerturbation
+    coords = StandardCoordinates(ndim=2, bounds=[(-500.0, 500.0), (-500.0, 500.0)])
+    pot = Schwefel()
+    sim = StandardSimilarity(0.02, 1.0, proportional_distance=True)
+    step = StandardPerturbation(max_displacement=0.3, proportional_distance=True)
+    hef = HybridEigenvectorFollowing(pot, 1e-3, 50, 20.0, max_uphill_step_size=100.0, positive_eigenvalue_step=20.0)
+    neb = NudgedElasticBand(pot, 10.0, 0.06, 20, 1e-1)
+    steps, temp, cycles = 25, 500.0, 1
 else:
     raise SystemExit("unknown pipeline")
 bh = BasinHopping(ktn, pot, sim, step)
@@ -63,6 +77,14 @@ ns.get_transition_states('ClosestEnumeration', cycles, remove_bounds_minima=Fals
 ns.get_transition_states('ConnectUnconnected', 1, remove_bounds_minima=False)
 # a further nearest-neighbour round: pairs that an earlier round attempted without joining them are RETRIED here
 ns.get_transition_states('ClosestEnumeration', 1, remove_bounds_minima=False)
+# and the two most distant minima, attempted three times over (they are rarely joined directly: the second and third
+# attempts are retries at raised image density, followed by fresh pairs)
+if ktn.n_minima >= 3:
+    far = max(((i, j) for i in range(ktn.n_minima) for j in range(i + 1, ktn.n_minima)),
+              key=lambda p: float(np.linalg.norm(np.asarray(ktn.get_minimum_coords(p[0])) - np.asarray(ktn.get_minimum_coords(p[1])))))
+    for _ in range(3):
+        ns.run_connection_attempts([list(far)])
+    ns.get_transition_states('ClosestEnumeration', 2, remove_bounds_minima=False)
 
 h = hashlib.sha256()
 rows = []
